@@ -126,6 +126,7 @@ fixed = [
     ("C16", "a983df0", "MemOrchestrator._register_new_invocations overwrote the record of an existing invocation (C16/R5)"),
     ("C05", "82499b9", "PynencError subclasses without attributes lost Exception.args on serialisation (C05/R4)"),
     ("C18", "f31d3bd", "WorkflowContext.deterministic cached the executor of the first invocation on the per-process Task (C18/R1)"),
+    ("C03", "06e9472", "get_additional_invocations_to_run dropped every popped message whose id was listed in blocking_invocation_ids, also after that invocation had been handed back within the same poll (thread start failure -> rerouted): REROUTED, not queued, lost (C03/R3 exit::get_additional_invocations_to_run::Q-::return, found after the engine required listed ids to be HELD; findings/repro/r16_start_failure_drops_rerouted.py)"),
     ("C12", "02fb446", "calculate_time_slot computed a window's end as start + slot - margin: with margin 0 the rounded end could exceed the next window's rounded start by one ulp, two runners authorised at one instant, e.g. N=7, 6 min (C12/R6; findings/repro/r15_slot_rounding.py)"),
 ]
 out = {
